@@ -42,6 +42,12 @@ BUILT = {
  'C13': dict(technique='bounded exhaustive enumeration of include trees (every contiguous run of items moved into a file, recursively; chains of every depth up to limit+2; every placement; error injected at every file and after every return; fail^k histories) against the reference parser with a file model; every configuration replayed on the real library',
              text='236 accepted texts of <= 4 items x every contiguous run moved into an include file (recursively to depth 2, 4 thorough) x 5 placements (relative, absolute, search-path directory 1 / 2, absolute with a search path) x an error at the end / start of each file and after each include returns; chains of depth 1..12 (limit 10); missing / directory / self / mutual / wrong-arity targets; k = 0..12 failing includes of 7 kinds followed by a succeeding one and a full-depth chain. Dump equals the flat text; diagnostics name the right file and line on both sides; failures are reported errors; include stack, FILEs and descriptors are back afterwards.',
              note='trusted: reftext.Files (include == tokens spliced in place); fixture files live under /verif/build/fx and are wiped per case', ref='5/C13'),
+ 'C14': dict(technique='bounded exhaustive enumeration (128 callback-placement variants of a schema x E1 token sequences x index k of the failing invocation, k = 0..K) against the reference parser\'s callback trace; every case replayed on the real library and its invocation log compared',
+             text='a scalar / list / section-with-child / function schema with every subset of the 7 parse / validate callback slots x every E1 token sequence up to N=6 (7 thorough) x the k-th invocation failing: the log of parse and function callbacks equals the reference trace exactly (option, decoded text or argument vector, order, once each), validation calls follow every stored value and see it (repeats collapsed), stored values are the callback\'s, a failing invocation fails the parse there with nothing logged after it and no later item applied; by-name setters x {pass, veto, rewrite} of the pre-set callback.',
+             note='trusted: the driver\'s callbacks and their log; defaults are converted (and logged) inside cfg_init and are cut off the compared log', ref='5/C14'),
+ 'C15': dict(technique='bounded exhaustive enumeration (E1 token sequences x every token boundary x 15 comment / white-space forms x annotation flag, one or two insertions) with a metamorphic oracle backed by the reference scanner/parser; every text replayed on the real library',
+             text='every accepted or rejected E1 text (8 schemas) with one (two) comment(s) or white space inserted at every token boundary incl. both ends, annotation support off and on: return code and dump are those of the un-commented text; with support on a comment immediately in front of a scalar or braced non-empty list assignment is returned by the comment getter, appears in the print, and survives print -> parse.',
+             note='trusted: reflex comment rules; only the positive annotation rule of the statement is asserted', ref='5/C15'),
 }
 
 checks = []
